@@ -7,10 +7,12 @@ import (
 	"os"
 	"path/filepath"
 	"regexp"
+	"runtime"
 	"sort"
 	"strings"
 	"sync"
 	"testing"
+	"time"
 
 	"github.com/avfs/avfs"
 	"github.com/avfs/avfs/idm/memidm"
@@ -54,6 +56,8 @@ func logSize() int64 {
 	}
 	return fi.Size()
 }
+
+var stalled bool
 
 var frameRe = regexp.MustCompile(`^\s+(github\.com/avfs/avfs[^\s(]*(?:\([^)]*\))?[^\s(]*)\(`)
 
@@ -169,6 +173,7 @@ func execute(p Program) (visibility string) {
 		go func() {
 			defer wg.Done()
 			wr := fsx.NewRunner(view)
+			wr.Guard = 0 // free running: one goroutine per worker, nothing else
 			if shared != nil {
 				wr.Handles[9] = shared
 			}
@@ -187,7 +192,9 @@ func execute(p Program) (visibility string) {
 		}()
 	}
 	close(start)
-	wg.Wait()
+	if stacks := waitOrDump(&wg, 45*time.Second); stacks != "" {
+		return "STALL:" + stacks
+	}
 	// visibility clause: A completes a mutation, signals B, B must observe it
 	var a, b avfs.VFS = v, v
 	if strings.HasPrefix(p.Kind, "MemFS") {
@@ -215,6 +222,47 @@ func execute(p Program) (visibility string) {
 		return seen.Error()
 	}
 	return ""
+}
+
+// waitOrDump waits for the workers; if none finishes the wait within the
+// bound it returns the stacks of all goroutines (the workers are then most
+// likely dead-locked: decided from the stacks by the caller, never from time alone).
+func waitOrDump(wg *sync.WaitGroup, d time.Duration) string {
+	done := make(chan struct{})
+	go func() { wg.Wait(); close(done) }()
+	select {
+	case <-done:
+		return ""
+	case <-time.After(d):
+		buf := make([]byte, 1<<20)
+		n := runtime.Stack(buf, true)
+		return string(buf[:n])
+	}
+}
+
+// lockedInMutex reports whether every goroutine that is inside avfs code is
+// parked in a mutex acquisition: nobody can release, a genuine deadlock.
+func lockedInMutex(stacks string) (bool, string) {
+	var inAvfs, parked int
+	var where []string
+	for _, g := range strings.Split(stacks, "\n\n") {
+		if !strings.Contains(g, "github.com/avfs/avfs/") {
+			continue
+		}
+		inAvfs++
+		first := strings.SplitN(g, "\n", 2)[0]
+		if strings.Contains(first, "sync.RWMutex") || strings.Contains(first, "sync.Mutex") || strings.Contains(first, "semacquire") {
+			parked++
+			for _, l := range strings.Split(g, "\n") {
+				if strings.HasPrefix(l, "github.com/avfs/avfs/") {
+					where = append(where, strings.SplitN(strings.TrimPrefix(l, "github.com/avfs/avfs/"), "(0x", 2)[0])
+					break
+				}
+			}
+		}
+	}
+	sort.Strings(where)
+	return inAvfs > 0 && parked == inAvfs, strings.Join(where, " | ")
 }
 
 func idmDo(idm avfs.IdentityMgr, c string) {
@@ -253,6 +301,15 @@ func judge(c *vt.Ctx, p Program) []*vt.Deviation {
 	for i := 0; i < p.Runs; i++ {
 		c.Eval(1)
 		if msg := execute(p); msg != "" {
+			if strings.HasPrefix(msg, "STALL:") {
+				// the workers did not finish: a deadlock is C07's property; here it only
+				// means that this run cannot be judged. The stacks say whether it is one.
+				dead, where := lockedInMutex(msg)
+				_ = os.WriteFile(filepath.Join(c.OutDir, fmt.Sprintf("stall-%d.txt", c.Shard)), []byte(msg), 0o644)
+				c.Inconclusive(fmt.Sprintf("free-running program did not finish within 45 s (all avfs goroutines parked in a mutex: %v; at %s); see C07", dead, where))
+				stalled = true
+				break
+			}
 			d := vt.Dev("prop", "C08", "fs", p.Kind, "clause", "visibility")
 			d.Detail = msg
 			devs = append(devs, d)
